@@ -1,7 +1,8 @@
 (** The dial functions and the silent-server timeouts of the upstreams that pkg/upstream/upstream.go
     builds (harness/dialx). The transport models (Lazy, Reuse) take as environment that a dial ends when
     its context does and that a reader's deadline fires; this judge holds the real upstreams to it.
-    scheme: 0 tls, 1 tls+pipeline, 2 tcp, 3 tcp+pipeline. variant: 0 an unbounded caller against a server
+    scheme: 0 tls, 1 tls+pipeline, 2 tcp, 3 tcp+pipeline, 4 udp (every datagram is answered with TC set, so the
+    exchange continues on the upstream's tcp fallback, which meets the silent listener). variant: 0 an unbounded caller against a server
     that accepts and says nothing, 1 Close while the exchange is stuck there. Observed: the exchange
     returned (with an error), within the bound (dial timeout / waiting-reply timeouts plus a margin; at
     once after Close), and every socket the upstream opened was closed. *)
